@@ -1121,8 +1121,9 @@ impl Sim {
                 }
             }
             if let Some(a) = action {
+                self.obs.borrow_mut().trace.push(format!("[drain] {a:?} (did not complete)"));
                 let d = self.apply(a).await;
-                self.obs.borrow_mut().trace.push(format!("[drain] {d}"));
+                *self.obs.borrow_mut().trace.last_mut().unwrap() = format!("[drain] {d}");
                 progress = true;
             }
             // service clients and journal
@@ -1171,6 +1172,10 @@ pub fn install_panic_hook() {
             };
             if std::env::var("VERIF_SHOW_PANICS").is_ok() {
                 eprintln!("panic at {loc}: {msg}");
+                let bt = std::backtrace::Backtrace::force_capture().to_string();
+                for line in bt.lines().filter(|l| l.contains("/repo/") || l.contains("tako::") || l.contains("hyperqueue::")).take(40) {
+                    eprintln!("   {line}");
+                }
             }
             PANICS.with(|p| p.borrow_mut().push((loc, msg)));
         }));
@@ -1297,6 +1302,7 @@ pub fn outcome_for(prop: &'static str, run: &SimRun) -> Outcome {
         "quiescent": run.quiescent,
         "classes": obs.classes,
         "trace_head": abbreviated,
+        "trace_tail": if obs.trace.len() > 60 { obs.trace[obs.trace.len().saturating_sub(25).max(60)..].to_vec() } else { Vec::new() },
         "panics": run.panics,
         "alarms": obs.alarms.iter().map(|a| format!("{} @{}: {} -- {}", a.prop, a.step, a.signature, a.detail)).collect::<Vec<_>>(),
     });
